@@ -250,6 +250,10 @@ def asanyarray(a, dtype=None, **k):
     if isinstance(a, SymArray):
         if dtype is not None and _np.dtype(dtype).kind == "S" and _np.dtype(dtype).itemsize == 0 and a.dtype.kind == "S":
             return a
+        if k.get("order") in ("C", "F") and a.dtype.kind != "S" and not a.vals.flags["C_CONTIGUOUS" if k["order"] == "C" else "F_CONTIGUOUS"]:
+            # NumPy returns a COPY when the requested memory order does not hold (a reversed / strided view): writes through the
+            # result no longer reach the array the view was taken from
+            a = a.copy()
         return a if dtype is None or _np.dtype(dtype) == a.dtype else a.astype(dtype)
     if isinstance(a, SymBytes):
         raise UnsupportedSymbolicOp("asarray(bytes)")
@@ -280,7 +284,7 @@ def array(a, dtype=None, copy=True, **k):
 
 @_reg
 def ascontiguousarray(a, dtype=None):
-    return asanyarray(a, dtype=dtype)
+    return asanyarray(a, dtype=dtype, order="C")
 
 
 @_reg
